@@ -14,12 +14,16 @@ def enc_itable(t):
 
 
 def gen_case(rng):
-    s = rng.choice([0, 0, 1, 2, 3])
+    s = rng.choice([0, 0, 1, 2, 3, 24, 30])
     unit = 1 << s
     n = rng.choice([2, 3, 4, 5, 6, 8, 10, 15, 25])
     span = rng.choice([1, 2, 3, 5])
     style = rng.random()
-    if style < 0.5:
+    if s >= 24:
+        # near ties: samples one or two grid steps (2^-24 .. 2^-30 of a level spacing) off a level, so that a
+        # tolerance in any `==` / `<` of the implementation changes the answer while exact arithmetic does not
+        h = [rng.randint(-span, span) * unit + rng.choice([0, 0, 1, -1, 1, -1, 2, -3, unit // 2]) for _ in range(n)]
+    elif style < 0.5:
         h = [rng.randint(-span * unit, span * unit) for _ in range(n)]
     elif style < 0.8:
         h = [rng.randint(-span, span) * unit + rng.choice([0, 0, 1, -1]) * (unit // 2) for _ in range(n)]
@@ -39,6 +43,8 @@ def gen_case(rng):
         ref = rng.choice([-100, 100]) * unit
     elif r < 0.6:
         ref = rng.choice(h)
+    elif s >= 24:
+        ref = rng.randint(-span, span) * unit + rng.choice([0, 1, -1])
     else:
         ref = rng.randint(-span * unit, span * unit)
     r = rng.random()
@@ -47,6 +53,8 @@ def gen_case(rng):
     else:
         k = rng.choice([1, 2, 3, 5, 8])
         levels = [rng.randint(-span * unit - unit, span * unit + unit) for _ in range(k)]
+        if s >= 24:
+            levels = [rng.randint(-span - 1, span + 1) * unit + rng.choice([0, 0, 0, 1, -1]) for _ in range(k)]
         if rng.random() < 0.3:
             levels += levels[:2]          # duplicates, unsorted
     return h, s, ref, levels
@@ -111,6 +119,7 @@ def explore(res, rng, n, extra=()):
     for i, (h, s, ref, levels) in enumerate(cases):
         lv = levels if levels is not None else resolved[i]
         res.stat('levels_default' if levels is None else 'levels_user')
+        res.stat('near_tie_grid' if s >= 24 else 'coarse_grid')
         out = run_level(h, s, ref, levels)
         res.evaluations += 1
         if len(set(h)) > 1:
@@ -152,7 +161,7 @@ CORPUS = [([5 * 2, 11, 11, 0], 1, 0, None), ([0, -3, -3, 0, 1], 0, 0, None), ([0
 
 def run(tier, seed):
     res = core.Result(PID, tier, seed)
-    res.rule = ('random histories on 2^-s grids spanning a few integer levels x reference level (0, far, equal to a sample, '
+    res.rule = ('random histories on 2^-s grids (s up to 3, plus near-tie grids s = 24, 30 with samples a few grid steps off a level) spanning a few integer levels x reference level (0, far, equal to a sample, '
                 'random) x default or user level sets (unsorted, duplicated); non-trivial = non-constant history; distinct '
                 'by (function, history, reference, levels)')
     core.prove(res, PID, MODULES, clean=(tier == 'thorough'))
